@@ -44,6 +44,8 @@ for lvl in (-2, -1, 0, 1, 2, 3, 4, 5):
     c10_cases.append(case("tile path L=%d N<10^6" % lvl, "VerifC10TilePath", [lvl, 1000000], ["formatted"], T))
 for sh in [(0, 1, 0), (1, 1, 1), (2, 1, 0), (2, 1, 1)]:
     c10_cases.append(case("parse path %s" % (sh,), "VerifC10ParsePath", sh, ["accept", "reject"], Q, selftest=(sh == (1, 1, 1))))
+for sh in [(10, 1, 0), (11, 1, 1), (12, 1, 0)]:
+    c10_cases.append(case("parse path with a non-canonical prefix %s" % (sh,), "VerifC10ParsePath", sh, ["reject"], Q))
 for sh in [(0, 2, 0), (2, 2, 1)]:
     c10_cases.append(case("parse path %s" % (sh,), "VerifC10ParsePath", sh, ["accept", "reject"], T))
 
@@ -54,7 +56,7 @@ CHECKS = {
         "bounds": {
             "quick": "decode: fully symbolic buffers of length n in {0,1,9,16,17,24,28,32} plus 6 shape-split buffers (cert<=3, precert<=2, k<=1 fingerprints, trailing<=2); "
                      "encode: cert<=3, precert<=2, k<=2; MerkleTreeLeaf: cert<=3; extension index: full 64-bit; ParseExtensions: n<=12; "
-                     "tile paths: L in {-2,-1,0,5}, symbolic N<1000, symbolic W in [1,256]; path parsing: one 3-character group of symbolic characters, optional partial-width suffix",
+                     "tile paths: L in {-2,-1,0,5}, symbolic N<1000, symbolic W in [1,256]; path parsing: one 3-character group of symbolic characters, optional partial-width suffix, canonical prefix or one of ten non-canonical prefixes",
             "thorough": "decode: n up to 48 plus shape-split up to cert 256 / precert 300 / k=2; encode up to cert 257; tile paths N<10^6 for L in -2..5; path parsing with two groups",
         },
         "assumptions": [
